@@ -12,7 +12,7 @@ def run(chk):
     ok = core.standard_proof_phase(chk, "C01", gen_needed=('BatchGen',))
     core.extra_props_phase(chk, "C01_batch")
     chk.notes["system_theorems"] = ['c01_no_double_placement', 'c01_monitor', 'c01_handed_protected', 'c01_make_batch_no_rehand', 'c01_round_disjoint', 'c01_batch_index_fresh']
-    chk.notes["partial"] = "'started' means Popen was called by AsyncCliCommand.run (virtual process in the tie); the uniqueness of launches is a local condition of the acceptor (a node launches a queued job once), validated on every impl trace"
+    chk.notes["partial"] = "'started' means Popen was called by AsyncCliCommand.run (virtual process in the tie); launch uniqueness is derived (SystemLaunch.v) from batch disjointness and queue structure, not a guard of the acceptor"
     syscheck.system_phase(chk, "C01", MODES, n_quick=130, n_thorough=2500, also=(), directed=("write_fails_after_first_sbatch",))
 
 
